@@ -321,9 +321,124 @@ def rule_who_writes(chk, prog):
                 r.bad("%s <- %s" % (field, wq), "tables/c01_writers.json", "required writer no longer stores to the field")
 
 
+def rule_merge_split(chk, prog):
+    """Symbolic kernels: merging across a violated constraint makes it exactly tight; splitting partitions the block."""
+    from .c02 import mkvar, mkcon, mkblock, run_all
+    from ..microai.poly import r_add, r_sub, r_mul, r_div
+    r = chk.rule("MERGE-TIGHT", "after Block::merge(b, c) (symbolic offsets, block sizes 1+1, 2+1, 1+2): all variables are in the surviving "
+                 "block, c is active and exactly tight (right.offset - left.offset == gap), offsets inside each former block keep their "
+                 "differences, the other block is marked deleted, and the new position is the least-squares stationary point", floor=2)
+    r2 = chk.rule("SPLIT-PARTITION", "after Block::split(l, r, c) on a 3-chain: c is inactive, l holds exactly the variables on c's left "
+                  "side and r those on its right, every variable points to its new block, offsets are unchanged", floor=2)
+    for ns in ("vpsc", "Avoid"):
+        fn = [f for f in prog.fns(ns + "::Block::merge") if len(f.params) == 2]
+        if len(fn) != 1:
+            raise AnalysisBroken("%s::Block::merge(Block*, Constraint*) not found" % ns)
+        fn = fn[0]
+        bad = None
+        n_eval = 0
+        for nl, nr in ((1, 1), (2, 1), (1, 2)):
+            vs = [mkvar(ns, i, False) for i in range(nl + nr)]
+            left, right = vs[:nl], vs[nl:]
+            lb = mkblock(ns, left, False)
+            rb = mkblock(ns, right, False)
+            lb.f["posn"] = Poly.var("posnL")
+            rb.f["posn"] = Poly.var("posnR")
+            inner = []
+            if nl == 2:
+                inner.append(mkcon(ns, left[0], left[1], 7))
+            if nr == 2:
+                inner.append(mkcon(ns, right[0], right[1], 8))
+            c = mkcon(ns, left[-1], right[0], 0)
+            c.f["active"] = False
+            try:
+                rows = run_all(prog, fn, lb, [rb, c, vs])
+            except Unsupported as e:
+                raise AnalysisBroken("%s::Block::merge outside the interpreter subset: %s" % (ns, e))
+            n_eval += len(rows)
+            for val, descr, out in rows:
+                if out[0] == "throw" and "division by zero" in out[1]:
+                    continue
+                if out[0] != "ret":
+                    bad = "(%d+%d) assertion path: %s" % (nl, nr, out[1])
+                    continue
+                lb2, (rb2, c2, vs2) = out[2], out[3]
+                surv = out[1]
+                dead = rb2 if surv is lb2 else lb2
+                if surv is not lb2 and surv is not rb2:
+                    bad = "(%d+%d) returns a block that is neither of the two merged blocks" % (nl, nr)
+                    continue
+                if not dead.f["deleted"] or surv.f["deleted"]:
+                    bad = "(%d+%d) deleted flags wrong after merge" % (nl, nr)
+                if any(v.f["block"] is not surv for v in vs2):
+                    bad = "(%d+%d) some variable is not in the surviving block" % (nl, nr)
+                if len(surv.f["vars"].items) != nl + nr:
+                    bad = "(%d+%d) surviving block lists %d variables" % (nl, nr, len(surv.f["vars"].items))
+                if c2.f["active"] is not True:
+                    bad = "(%d+%d) merged constraint not marked active" % (nl, nr)
+                tight = to_poly(c2.f["right"].f["offset"]) - to_poly(c2.f["left"].f["offset"]) - to_poly(c2.f["gap"])
+                if tight != Poly.const(0):
+                    bad = "(%d+%d) merged constraint is not tight: right.offset - left.offset - gap = %r" % (nl, nr, tight)
+                for grp, orig in ((vs2[:nl], left), (vs2[nl:], right)):
+                    if len(grp) == 2:
+                        d_new = to_poly(grp[1].f["offset"]) - to_poly(grp[0].f["offset"])
+                        d_old = to_poly(orig[1].f["offset"]) - to_poly(orig[0].f["offset"])
+                        if d_new != d_old:
+                            bad = "(%d+%d) offsets inside a merged block changed relative to each other" % (nl, nr)
+                total = Fraction(0)
+                for v in surv.f["vars"].items:
+                    x = r_add(surv.f["posn"], v.f["offset"])
+                    total = r_add(total, r_mul(v.f["weight"], r_sub(x, v.f["desiredPosition"])))
+                tn, td = num_den(total)
+                if tn != Poly.const(0):
+                    bad = "(%d+%d) merged block is not at its least-squares position (residual %r)" % (nl, nr, tn)
+        r.count(n_eval)
+        (r.bad if bad else r.ok)(ns + "::Block::merge", fn.where(), bad or "%d paths" % n_eval)
+        # ---- split
+        fs = prog.fn(ns + "::Block::split")
+        bad = None
+        n_eval = 0
+        for cut in (0, 1):
+            vs = [mkvar(ns, i, False) for i in range(3)]
+            cs = [mkcon(ns, vs[0], vs[1], 0), mkcon(ns, vs[1], vs[2], 1)]
+            b = mkblock(ns, vs, False)
+            try:
+                rows = run_all(prog, fs, b, [Box(None), Box(None), cs[cut], vs, cs])
+            except Unsupported as e:
+                raise AnalysisBroken("%s::Block::split outside the interpreter subset: %s" % (ns, e))
+            n_eval += len(rows)
+            for val, descr, out in rows:
+                if out[0] == "throw" and "division by zero" in out[1]:
+                    continue
+                if out[0] != "ret":
+                    bad = "cut %d: assertion path %s" % (cut, out[1])
+                    continue
+                lbox, rbox, c2, vs2, cs2 = out[3]
+                l, rr = lbox.get(), rbox.get()
+                if l is None or rr is None:
+                    bad = "cut %d: split does not produce two blocks" % cut
+                    continue
+                want_l = set(range(0, cut + 1))
+                got_l = set(v.f["id"] for v in l.f["vars"].items)
+                got_r = set(v.f["id"] for v in rr.f["vars"].items)
+                if c2.f["active"]:
+                    bad = "cut %d: the split constraint stays active" % cut
+                if got_l != want_l or got_r != set(range(3)) - want_l:
+                    bad = "cut %d: left block holds %s, right block %s" % (cut, sorted(got_l), sorted(got_r))
+                for v in vs2:
+                    exp = l if v.f["id"] in want_l else rr
+                    if v.f["block"] is not exp:
+                        bad = "cut %d: variable %d does not point to its new block" % (cut, v.f["id"])
+                    if to_poly(v.f["offset"]) != Poly.var("o%d" % v.f["id"]):
+                        bad = "cut %d: offset of variable %d changed" % (cut, v.f["id"])
+        r2.count(n_eval)
+        (r2.bad if bad else r2.ok)(ns + "::Block::split", fs.where(), bad or "%d paths" % n_eval)
+
+
 def run(chk):
     prog = chk.load()
     rule_verify_before_publish(chk, prog)
+    rule_merge_split(chk, prog)
     rule_solve_uses_satisfy(chk, prog)
     rule_slack_form(chk, prog)
     rule_who_writes(chk, prog)
